@@ -7,8 +7,9 @@
        is called from) and ParseTxs leave every pre-existing block unchanged and write
        only to blocks they allocated - for EVERY heap, EVERY list of views (any blocks,
        offsets, capacities, overlapping or adjacent), every allocator growth policy;
-     - ParseBlobs on 512-byte views returns what the pure model (Model/Sparse.v)
-       returns on the bytes the views denote;
+     - ParseBlobs, Sequence.RawData, extractRawData, parseDelimiter and ParseTxs on
+       512-byte views return what the pure models (Model/Sparse.v, Square.v, Compact.v,
+       Varint.v) return on the bytes the views denote;
      - the code before the repair of defect D7 does overwrite its input (witness);
      - threads that keep the discipline "write only what you allocated" never conflict,
        leave the shared blocks unchanged and compute their solo results, under ANY
@@ -17,7 +18,7 @@
    other read paths the Gallina model is pure by construction and the tie is the arena /
    race-detector oracle of the correspondence check. *)
 From Coq Require Import List NArith.
-From GS.Model Require Import Base Varint Namespace ShareFmt Blob Sparse Compact Mem.
+From GS.Model Require Import Base Varint Namespace ShareFmt Blob Sparse Compact Square Mem.
 From GS.Proofs Require Import MemProofs.
 Import ListNotations.
 Open Scope nat_scope.
@@ -33,15 +34,29 @@ Theorem C17_parse_blobs_mem_readonly : forall g h views,
 Proof. exact parse_blobs_mem_readonly. Qed.
 Print Assumptions C17_parse_blobs_mem_readonly.
 
-Theorem C17_sequence_raw_data_mem_readonly : forall g h views,
-  run_read_only (sequence_raw_data_mem g views) h.
-Proof. exact sequence_raw_data_mem_readonly. Qed.
-Print Assumptions C17_sequence_raw_data_mem_readonly.
+(* Sequence.RawData: read-only, and = the pure sequence_raw_data (Model/Square.v) *)
+Theorem C17_sequence_raw_data_mem_correct : forall g h ns views,
+  run_read_only (sequence_raw_data_mem g views) h /\
+  (Forall (view_ok h) views ->
+   snd (sequence_raw_data_mem g views (mk_st h [])) =
+   sequence_raw_data (mk_seq ns (map (mread_bytes h) views))).
+Proof. exact sequence_raw_data_mem_correct. Qed.
+Print Assumptions C17_sequence_raw_data_mem_correct.
 
+(* extractRawData: read-only, and the buffer it returns holds the pure extract_raw_data *)
 Theorem C17_extract_raw_data_mem_readonly : forall g h views,
   run_read_only (extract_raw_data_mem g false views nil_slice) h.
 Proof. exact extract_raw_data_mem_readonly. Qed.
 Print Assumptions C17_extract_raw_data_mem_readonly.
+
+Theorem C17_extract_raw_data_mem_refines : forall g h views,
+  Forall (view_ok h) views ->
+  outcome_rel (fun acc' rest =>
+      mread_bytes (st_heap (fst (extract_raw_data_mem g false views nil_slice (mk_st h [])))) acc' = rest)
+    (snd (extract_raw_data_mem g false views nil_slice (mk_st h [])))
+    (extract_raw_data false (map (mread_bytes h) views)).
+Proof. exact extract_raw_data_mem_refines. Qed.
+Print Assumptions C17_extract_raw_data_mem_refines.
 
 (* parseDelimiter writes zero padding behind input[:l]; harmless whenever the input lives
    in a block that did not exist initially (or has no capacity) ... *)
@@ -52,11 +67,29 @@ Theorem C17_parse_delimiter_mem_readonly : forall g n0 input st,
 Proof. exact parse_delimiter_mem_readonly. Qed.
 Print Assumptions C17_parse_delimiter_mem_readonly.
 
-(* ... which is the case in ParseTxs: its input is the buffer built by extractRawData *)
-Theorem C17_parse_txs_mem_readonly : forall g h views,
-  run_read_only (parse_txs_mem g views) h.
-Proof. exact parse_txs_mem_readonly. Qed.
-Print Assumptions C17_parse_txs_mem_readonly.
+(* parseDelimiter on a buffer slice (nil, or inside a block, in a block >= n0 or without
+   capacity): the first n0 blocks are unchanged, no block shrinks, every byte of an existing
+   block in front of the END of the input is unchanged (the padding lands behind it), and the
+   result is the pure parse_delimiter (Model/Varint.v) of the bytes of the input *)
+Theorem C17_parse_delimiter_mem_refines : forall n0 g input st,
+  n0 <= length (st_heap st) -> safe n0 input -> acc_ok (st_heap st) input ->
+  forall r, r = parse_delimiter_mem g input st ->
+  firstn n0 (st_heap (fst r)) = firstn n0 (st_heap st) /\
+  length (st_heap st) <= length (st_heap (fst r)) /\
+  stable_below (st_heap st) (st_heap (fst r)) input /\
+  noshrink (st_heap st) (st_heap (fst r)) /\
+  delim_rel (st_heap st) n0 input (snd r) (parse_delimiter (mread_bytes (st_heap st) input)).
+Proof. exact parse_delimiter_mem_refines. Qed.
+Print Assumptions C17_parse_delimiter_mem_refines.
+
+(* ... which is the case in ParseTxs: its input is the buffer built by extractRawData.
+   ParseTxs: read-only, and = the pure parse_txs (Model/Compact.v) *)
+Theorem C17_parse_txs_mem_correct : forall g h views,
+  run_read_only (parse_txs_mem g views) h /\
+  (Forall (view_ok h) views ->
+   snd (parse_txs_mem g views (mk_st h [])) = parse_txs (map (mread_bytes h) views)).
+Proof. exact parse_txs_mem_correct. Qed.
+Print Assumptions C17_parse_txs_mem_correct.
 
 (* the model can express the defect: the pre-fix parser changes a pre-existing block *)
 Theorem C17_parse_blobs_mem_legacy_refuted :
@@ -135,3 +168,22 @@ Example C17_witness_legacy_not_disciplined :
   ~ disciplined (fun _ : unit => True) 1
       (fun s => (fst (parse_blobs_mem_legacy grow_double d7_views (fst s)), tt)).
 Proof. exact legacy_step_not_disciplined. Qed.
+
+Example C17_witness_sequence_raw_data :
+  snd (sequence_raw_data_mem grow_double d7_views (mk_st [d7_arena] [])) = Ok (b_data d7_blob).
+Proof. exact sequence_raw_data_mem_witness. Qed.
+
+(* ParseTxs on three compact shares in one block: the zero padding of parseDelimiter is an
+   in-place write at offset 1430 of the private buffer (block 3); block 0 is untouched *)
+Example C17_witness_parse_txs :
+  let r := parse_txs_mem grow_double txw_views (mk_st [txw_arena] []) in
+  Forall (view_ok [txw_arena]) txw_views /\
+  map (mread_bytes [txw_arena]) txw_views = txw_shares /\
+  snd r = Ok [txw_tx] /\
+  firstn 1 (st_heap (fst r)) = [txw_arena] /\
+  map (@length byte) (st_heap (fst r)) = [1536; 474; 952; 1904] /\
+  existsb (fun a => match a_kind a with
+                    | AW => Nat.eqb (a_blk a) 3 && Nat.eqb (a_off a) 1430 && Nat.eqb (a_len a) 6
+                    | AR => false
+                    end) (st_log (fst r)) = true.
+Proof. exact parse_txs_mem_witness. Qed.
